@@ -12,9 +12,15 @@
 //   path <kind> <field> <f:w> <dim> <f:lo> <f:hi> <f:frac> <factor> <npts> <f>*  -> cost=<f> len=<f>
 //                                                  (real PathGeometric::cost(objective) / length())
 // Header `solnrun`  (part C)
-//   run <planner> <obj> <field> <thr: def|inf|<f>> <env> <dim> <seed> <evals> <solves> <goalthr f>
-//        -> one line: per solve the problem definition's flags and every solution with stored cost,
-//           recomputed cost, heuristic bound, straight line, ...
+//   run <planner> <obj> <field> <thr: def|inf|<f>> <env> <dim> <seed> <evals> <solves> <goalthr f> [<clear 0|1>]
+//        -> `run` header line, then one `snap` line per change of the solution set (printed from inside
+//           the termination condition), one `solve` line per solve, `clear` lines when clear=1
+//           (pdef->clearSolutionPaths() before every continued solve), `end`; each line: the problem
+//           definition's flags, getSolutions order, and for new solutions stored cost, recomputed cost,
+//           spelled-out fold, length, heuristic bound, straight line, ...
+//        env 0-4: obstacle layouts, start 0.1^d, goal 0.9^d; env 5: goal sealed inside walls (only
+//           approximate solutions possible); env 6: two goal states, the worse one listed first, the better
+//           one behind a wall with a narrow window; env 7: two goal states (worse first) around blocks
 // rec = idx:approx:diff:hasopt:cost:opt:len   (doubles as u64 bit patterns)
 #include "common/proto.h"
 
@@ -29,6 +35,7 @@
 #include "ompl/base/OptimizationObjective.h"
 #include "ompl/base/PlannerTerminationCondition.h"
 #include "ompl/base/goals/GoalState.h"
+#include "ompl/base/goals/GoalStates.h"
 #include "ompl/base/spaces/RealVectorStateSpace.h"
 #include "ompl/base/spaces/TimeStateSpace.h"
 #include "ompl/base/objectives/PathLengthOptimizationObjective.h"
@@ -532,6 +539,18 @@ static std::vector<Box> envBoxes(unsigned env, unsigned dim)
             out.push_back(box(0.3, 0.4, 0.0, 0.7));
             out.push_back(box(0.6, 0.7, 0.3, 1.0));
             break;
+        case 5:  // the goal corner [0.8,1]^2 is sealed off: no exact solution exists
+            out.push_back(box(0.72, 0.8, 0.72, 1.0));
+            out.push_back(box(0.72, 1.0, 0.72, 0.8));
+            break;
+        case 6:  // wall at x in [0.70,0.74] with a window at y in (0.72,0.76)
+            out.push_back(box(0.70, 0.74, 0.0, 0.72));
+            out.push_back(box(0.70, 0.74, 0.76, 1.0));
+            break;
+        case 7:  // two blocks
+            out.push_back(box(0.3, 0.45, 0.0, 0.35));
+            out.push_back(box(0.45, 0.7, 0.45, 0.7));
+            break;
         default:  // scattered blocks
             out.push_back(box(0.2, 0.35, 0.2, 0.35));
             out.push_back(box(0.5, 0.7, 0.15, 0.4));
@@ -540,6 +559,38 @@ static std::vector<Box> envBoxes(unsigned env, unsigned dim)
             break;
     }
     return out;
+}
+
+// start and goal states of an environment (first two coordinates; the others are 0.1 / 0.9 resp. 0.5).
+// Two goal states: the one listed first is the worse one.
+struct Query
+{
+    std::vector<double> start;
+    std::vector<std::vector<double>> goals;
+};
+static Query envQuery(unsigned env, unsigned dim)
+{
+    Query q;
+    if (env == 6)
+    {
+        q.start.assign(dim, 0.5);
+        q.start[0] = 0.60;
+        q.goals.push_back(std::vector<double>(dim, 0.5));
+        q.goals.back()[0] = 0.02;
+        q.goals.back()[1] = 0.90;
+        q.goals.push_back(std::vector<double>(dim, 0.5));
+        q.goals.back()[0] = 0.85;
+        return q;
+    }
+    q.start.assign(dim, 0.1);
+    q.goals.push_back(std::vector<double>(dim, 0.9));
+    if (env == 7)
+    {
+        q.goals.push_back(std::vector<double>(dim, 0.5));
+        q.goals.back()[0] = 0.55;
+        q.goals.back()[1] = 0.2;
+    }
+    return q;
 }
 
 static ob::PlannerPtr makePlanner(const std::string &n, const ob::SpaceInformationPtr &si)
@@ -641,6 +692,16 @@ struct Monitor
                std::to_string(pg->getStateCount()) + ":" + clean(s.plannerName_);
     }
 
+    // the user forgets all solutions between two solves (the anytime pattern of tests/geometric/2d)
+    void clearSolutions(unsigned solve)
+    {
+        std::lock_guard<std::mutex> lk(m);
+        pdef->clearSolutionPaths();
+        seenCount = 0;
+        printed = 0;
+        std::cout << "clear solve=" << solve << std::endl;
+    }
+
     void report(const std::string &kind, unsigned solve, unsigned long calls, const std::string &extra)
     {
         std::lock_guard<std::mutex> lk(m);
@@ -671,9 +732,17 @@ struct Monitor
 
 static bool doRun(const std::vector<std::string> &t)
 {
-    // run planner obj field thr env dim seed evals solves goalthr
-    if (t.size() != 11)
+    // run planner obj field thr env dim seed evals solves goalthr [clear]
+    if (t.size() != 11 && t.size() != 12)
         return false;
+    bool clearBetween = false;
+    if (t.size() == 12)
+    {
+        auto c = parseBit(t[11]);
+        if (!c)
+            return false;
+        clearBetween = *c;
+    }
     const std::string &pname = t[1], &kind = t[2];
     auto field = vp::parseNat(t[3]);
     const std::string &thr = t[4];
@@ -704,18 +773,41 @@ static bool doRun(const std::vector<std::string> &t)
     else if (thrv)
         obj->setCostThreshold(ob::Cost(*thrv));
     auto pdef = std::make_shared<ob::ProblemDefinition>(si);
+    Query q = envQuery((unsigned)*env, d);
     ob::ScopedState<> start(si), goal(si);
     for (unsigned i = 0; i < d; ++i)
+        start[i] = q.start[i];
+    double nearest = std::numeric_limits<double>::infinity();
+    if (q.goals.size() == 1)
     {
-        start[i] = 0.1;
-        goal[i] = 0.9;
+        for (unsigned i = 0; i < d; ++i)
+            goal[i] = q.goals[0][i];
+        pdef->setStartAndGoalStates(start, goal, *gthr);
+        nearest = si->distance(start.get(), goal.get());
     }
-    pdef->setStartAndGoalStates(start, goal, *gthr);
+    else
+    {
+        pdef->addStartState(start);
+        auto gs = std::make_shared<ob::GoalStates>(si);
+        for (auto &g : q.goals)
+        {
+            for (unsigned i = 0; i < d; ++i)
+                goal[i] = g[i];
+            gs->addState(goal);
+            nearest = std::min(nearest, si->distance(start.get(), goal.get()));
+        }
+        gs->setThreshold(*gthr);
+        pdef->setGoal(gs);
+    }
     pdef->setOptimizationObjective(obj);
     auto planner = makePlanner(pname, si);
     if (!planner)
         return false;
-    double qbound = std::max(si->distance(start.get(), goal.get()) - *gthr, 0.0);
+    // BIT*/ABIT* report approximate solutions only when asked to; ask in the sealed-goal environment
+    if (*env == 5)
+        if (auto *bit = dynamic_cast<og::BITstar *>(planner.get()))
+            bit->setConsiderApproximateSolutions(true);
+    double qbound = std::max(nearest - *gthr, 0.0);
     std::cout << "run planner=" << pname << " obj=" << kind << " thr=" << vp::bits(obj->getCostThreshold().value())
               << " qbound=" << vp::bits(qbound) << std::endl;
     Monitor mon{si, pdef, obj, start.get(), qbound};
@@ -732,6 +824,8 @@ static bool doRun(const std::vector<std::string> &t)
                 mon.report("snap", k, c, "");
                 return c > budget;
             });
+            if (k > 0 && clearBetween)
+                mon.clearSolutions(k);
             ob::PlannerStatus st = planner->solve(ptc);
             mon.report("solve", k, calls.load(), " status=" + clean(st.asString()));
         }
